@@ -175,3 +175,19 @@ func TestKF_C07_ResponseCopyDeleted(t *testing.T) {
 			[]string{"PUT artifact A (subject S) -> 201", "GET referrers/S -> listing L [A]", "PUT manifests/<digest of L> with the bytes of L as an OCI index -> 201", "DELETE manifests/<digest of L> -> 202", "GET referrers/S -> []"}, nil)
 	}
 }
+
+// Listed finding C15/range-error-body-not-oci: an unsatisfiable Range on a blob or manifest GET.
+func TestKF_C15_RangeErrorBody(t *testing.T) {
+	st := newStats("TestKF_C15_RangeErrorBody", "C15", "reproducer")
+	h := olareg.New(baseConf(config.StoreMem, ""))
+	defer h.Close()
+	cd := kfPush(t, h, "r", []byte("{}"))
+	r := doReq(h, "GET", "/v2/r/blobs/"+cd, nil, hdr("Range", "bytes=100-200"))
+	var doc struct {
+		Errors []struct{ Code string } `json:"errors"`
+	}
+	if r.code >= 400 && len(r.body) > 0 && (json.Unmarshal(r.body, &doc) != nil || len(doc.Errors) == 0) {
+		Fail(kfT{t}, st, "range-error-body-not-oci", fmt.Sprintf("GET of a 2 byte blob with Range: bytes=100-200 answers %d with Content-Type %s and body %q, not an OCI error document", r.code, r.hdr.Get("Content-Type"), trunc(r.body, 100)),
+			[]string{"push a 2 byte blob", "GET it with Range: bytes=100-200"}, nil)
+	}
+}
